@@ -199,12 +199,17 @@ def emit(chk, name, consts, inv):
 def both(chk, name, consts, switch, current):
     """-> [(case, promise, asis)]: the specification's result with the named deviation off and on"""
     prom = {ckey(c["case"]): c for c in emit(chk, name + "_promise", dict(consts, **{switch: "FALSE"}), "EmitBuilt")}
+    for c in prom.values():
+        WENV.update(c.get("wenv", {}))
     if current == "FALSE":
         return [(c["case"], c["res"], c["res"]) for c in prom.values()]
     asis = emit(chk, name + "_asis", dict(consts, **{switch: "TRUE"}), "EmitBuilt")
     if set(prom) != {ckey(c["case"]) for c in asis}:
         raise MachineryError("the two emission runs of %s enumerate different cases" % name)
     return [(c["case"], prom[ckey(c["case"])]["res"], c["res"]) for c in asis]
+
+
+WENV = {}       # what the specification says about the environment of a wrapping Executor
 
 
 class Findings:
@@ -276,8 +281,8 @@ def _component_resolve_chunk(args):
         gg = g
         if g.get("ok"):
             gg = {"ok": True, "exe": g["exe"]}
-            if not (g["exe"] == g["persisted"] == g["job"]):
-                gg = {"error": "checkExecutable did not persist one executable: spec.command %s, configuration %s, Job.command %s" % (g["exe"], g["persisted"], g["job"])}
+            if g["exe"] != g["job"]:
+                gg = {"error": "after checkExecutable ComponentSpecification.command has %s but Job.command has %s" % (g["exe"], g["job"])}
         out.append((case, exp(prom), exp(asis), gg))
     return out
 
@@ -321,7 +326,12 @@ def _render_chunk(args):
             got = {"error": "commandLine left the process in another working directory"}
 
         def exp(res):
-            return {"ok": True, "line": fx.text(res["line"])} if res["ok"] else {"ok": False}
+            if not res["ok"]:
+                return {"ok": False}
+            e = {"ok": True, "line": fx.text(res["line"])}
+            if case["wrap"]:
+                e["wenv"] = dict(WENV)
+            return e
         out.append((case, exp(prom), exp(asis), got))
     return out
 
@@ -336,7 +346,7 @@ def check_tables(chk, fx_root, echo_escapes):
     n = 0
     for c in r:
         case, res = c["case"], c["res"]
-        if len(case["toks"]) != 1 or case["rw"] or not case["rss"]:
+        if len(case["toks"]) != 1 or case["rw"] or not case["rss"] or case["wrap"]:
             continue
         t = case["toks"][0]
         if case["mode"] == "none":
@@ -364,7 +374,7 @@ def check_render(chk, fnd, tier, echo_escapes):
     triples = both(chk, "render", consts, "BrokenYieldsEmpty", BROKEN_EMPTY)
     if tier == "thorough":
         consts3 = dict(render_consts(TOKENS, 3, True, modes=("double-quote",)), EchoEscapes=EE)
-        more = [t for t in both(chk, "render3", consts3, "BrokenYieldsEmpty", BROKEN_EMPTY) if len(t[0]["toks"]) == 3 and t[0]["rss"] and not t[0]["rw"]]
+        more = [t for t in both(chk, "render3", consts3, "BrokenYieldsEmpty", BROKEN_EMPTY) if len(t[0]["toks"]) == 3 and t[0]["rss"] and not t[0]["rw"] and not t[0]["wrap"]]
         triples += more
     if len(triples) < 3000:
         raise MachineryError("TLC emitted only %d rendering cases" % len(triples))
@@ -375,7 +385,8 @@ def check_render(chk, fnd, tier, echo_escapes):
             n += 1
             cls = "+".join(sorted(set(case["toks"]))) if len(set(case["toks"])) <= 1 else "+".join(sorted(set(case["toks"])))
             judge(chk, fnd, "render", case, prom, asis, got, F_BROKEN, "%s:%s" % (case["mode"], cls),
-                  "arguments %r, expandArguments %s, resolveShellSubstitutions %s, rewrite %s" % (raw_of(case), case["mode"], case["rss"], case["rw"]))
+                  "arguments %r, expandArguments %s, resolveShellSubstitutions %s, rewrite %s, wrapped in an Executor %s" % (
+                      raw_of(case), case["mode"], case["rss"], case["rw"], case["wrap"]))
             if "unbal" in case["toks"] and case["mode"] == "double-quote" and case["rss"]:
                 chk.sample({"render": case, "arguments": raw_of(case), "specified": prom, "code_at_head": asis, "real": got}, limit=9)
     chk.cov["render_cases"] = n
@@ -446,6 +457,7 @@ GROUPS = {("n1", "n2", "n3"): "notify", ("s1", "s2"): "stageout"}
 
 def parse_line(line):
     """a submitted pre / post command line -> (step names, separators in front of the 2nd.. top-level step) or None"""
+    line = re.sub(r"\{\s+|\s*;\s*\}", "", line)          # "{ a ;b ; } && { c ; }": the groups only matter to the shell
     parts = re.split(r"\s*(;|&&)\s*", line.strip()) if line.strip() else []
     atoms, seps = [], []
     for i in range(0, len(parts), 2):
@@ -480,9 +492,8 @@ def check_submit(D, req, sc, expect):
     bad = []
     if req is None:
         return ["lsb_submit was not called"]
-    sep = expect["sep"].strip()
-    for which, line, flag, want, on in (("pre", req.preExecCmd, D.has("SUB_PRE_EXEC"), expect["pre"], expect["hasPre"]),
-                                        ("post", req.postExecCmd, D.has("SUB3_POST_EXEC", "options3"), expect["post"], True)):
+    for which, line, flag, want, on, sep in (("pre", req.preExecCmd, D.has("SUB_PRE_EXEC"), expect["pre"], expect["hasPre"], expect["sep"].strip()),
+                                             ("post", req.postExecCmd, D.has("SUB3_POST_EXEC", "options3"), expect["post"], True, expect["postsep"].strip())):
         if not on:
             if flag or line.strip():
                 bad.append("%s-exec requested (%r) although this LSF version has none" % (which, line))
@@ -642,10 +653,11 @@ def chain_cases(chk, tier):
         cases += emit_runs(chk, "runs_odd", dict(base, PreCounts="{1}", PostCounts="{1}", MaxOdd=4, MainOutcomes=tla_set(["rc0", "rc3"])))
         cases += emit_runs(chk, "runs_end", dict(RUN_ALL, PollMode='"end"', PostCounts="{0, 1}", MaxOdd=1))
     else:
-        cases = emit_runs(chk, "runs_always", dict(base, PostCounts="{0, 1}", MaxOdd=1))
+        cases = emit_runs(chk, "runs_always", dict(base, PostCounts="{0, 1}", MaxOdd=1, MainOutcomes=tla_set(["rc0", "rc3"])))
+        cases += emit_runs(chk, "runs_outcomes", dict(base, PreCounts="{1}", PostCounts="{1}", MaxOdd=0))
         cases += emit_runs(chk, "runs_post2", dict(base, PreCounts="{1}", PostCounts="{2}", MaxOdd=0, MainOutcomes=tla_set(["rc0", "rc3"])))
         cases += emit_runs(chk, "runs_odd", dict(base, PreCounts="{1}", PostCounts="{1}", MaxOdd=4, MainOutcomes=tla_set(["rc0"]), Codes="{0}"))
-        cases += emit_runs(chk, "runs_end", dict(RUN_ALL, PollMode='"end"', PreCounts="{1}", PostCounts="{0, 1}", MaxOdd=1, MainOutcomes=tla_set(["rc0", "rc3", "sig9"])))
+        cases += emit_runs(chk, "runs_end", dict(RUN_ALL, PollMode='"end"', PreCounts="{1}", PostCounts="{0, 1}", MaxOdd=1, MainOutcomes=tla_set(["rc0", "rc3"])))
     return cases
 
 
